@@ -64,17 +64,29 @@ func clip(s string, n int) string {
 
 func runServerPlan(c pcfg, plan []step) (res pktResult) {
 	defer guard(&res)
+	p, err := newPeer(c, 0)
+	if err != nil {
+		res.violation = "SIG=C04/harness setup: " + err.Error()
+		return res
+	}
+	return runServerSession(c, plan, p, &serverTable{table: map[uint64]zerocopy.ServerUnpacker{}}, &serverTable{table: map[uint64]zerocopy.ServerUnpacker{}})
+}
+
+// runServerSession opens a new client session on the peer's client object and runs the plan against
+// the peer's long-lived server object through the given (possibly already populated) session tables.
+// The reference models are fresh: a new client session id owes nothing to earlier sessions.
+func runServerSession(c pcfg, plan []step, p *peer, tabA, tabB *serverTable) (res pktResult) {
 	res.labels = map[string]bool{}
 	fail := func(sig, format string, a ...any) pktResult {
 		res.violation = "SIG=C04/" + sig + " " + fmt.Sprintf(format, a...)
 		return res
 	}
-	e, err := newEndpoint(c, 0)
+	e, err := p.open()
 	if err != nil {
 		return fail("harness", "setup: %v", err)
 	}
-	tabA := &serverTable{e: e, table: map[uint64]zerocopy.ServerUnpacker{}}
-	tabB := &serverTable{e: e, table: map[uint64]zerocopy.ServerUnpacker{}}
+	defer e.session.Close()
+	tabA.e, tabB.e = e, e
 	var pool []*pkt
 	var tag uint64
 	// the first genuine packet tells the harness the client session id
